@@ -115,7 +115,7 @@ def execute(scn):
             # before the next operation on this validator
             do_op(actor, {"op": "gc"}, instances)
         steps += 1 + len(out.get("errs", ()))
-        for viol in actor.check_invariants(i):
+        for viol in actor.check_invariants(i, ended_in_exception=(out.get("k") == "raised" or bool(out.get("exc")))):
             viol["op"] = op["op"]
             violations.append(viol)
         if out.pop("_instance_mutated", False):
